@@ -27,6 +27,7 @@ func init() {
 			ruleMatcherGuard(c, r, "", false)
 			ruleDeepCopy(c, r, "")
 			ruleOpSiblings(c, r, "")
+			ruleCodecSiblings(c, r, "")
 			ruleCounting(c, r, "", "write")
 			ruleBlockWriterHash(c, r, "")
 			ruleBlockFilters(c, r, "")
@@ -55,6 +56,7 @@ func init() {
 			ruleStartChunkEffects(c, r, t, "")
 			ruleDecoderReps(c, r, "")
 			ruleOpSiblings(c, r, "")
+			ruleCodecSiblings(c, r, "")
 			ruleRingModulus(c, r, "", "dec")
 			ruleDecoderBounds(c, r, "")
 			ruleCounting(c, r, "", "read")
@@ -92,6 +94,7 @@ func init() {
 			ruleRingModulus(c, r, "", "enc")
 			ruleRingModulus(c, r, "dec:", "dec")
 			ruleOpSiblings(c, r, "")
+			ruleCodecSiblings(c, r, "")
 			ruleIO(c, r, c.Cone(nonNilFns(c.Func("lzma", "NewWriter"), c.Func("lzma", "WriterConfig.NewWriter"), c.Func("lzma", "Writer.Write"), c.Func("lzma", "Writer.Close"))...), "", true)
 		},
 	})
@@ -111,6 +114,7 @@ func init() {
 			ruleSpecConstants(c, r, "")
 			ruleDecoderReps(c, r, "")
 			ruleOpSiblings(c, r, "")
+			ruleCodecSiblings(c, r, "")
 			ruleRingModulus(c, r, "", "dec")
 			ruleLzmaHeaderCodec(c, r, "")
 			rulePropsCode(c, r, "")
